@@ -16,9 +16,9 @@ Go integer widths.  `inputGlyphCount-1` (nested.go:752, 1089) is computed in `ui
 used to ask for 65535 entries (finding C02-zero-count) and is now refused by the zero check in
 front of it (nested.go:746, 1083).  The subtraction is still modelled exactly,
 `(n + 65535) % 65536`; `readCRuleOld` is the rule reader before the repair.
-`10*meta.LookupType+format` (gsub.go:41) is a `uint16` sum: `(60 + format) % 65536`; a format
-word ≥ 65487 can wrap to the key of ANOTHER reader (e.g. 0xFFCF ↦ 1_1); those readers are not
-modelled here, the model answers `.err "other-reader"` for them (the tie prints `skip`).
+`10*meta.LookupType+format` (gsub.go:41) is a `uint16` sum: `(60 + format) % 65536`; before the
+repair C02-dispatch-key a format word such as 11, 21 or 0xFFCF had the key of ANOTHER reader
+(finding; `readChainedOld`); the repaired code (gsub.go:42) refuses every format word above 9.
 
 Size caps.  Format 1 checks `total > 0xFFFF` after the rule-offset array of a set is read and
 `ruleSetSize > 0xFFFF` after each rule is read (before the rule is added): the caps sit INSIDE the
@@ -285,17 +285,29 @@ def read3 (b : Bytes) (pos : Nat) : Outcome (Sub × Cost) := do
 
 /-! ## the dispatch of `readGsubSubtable` for lookup type 6 -/
 
-/-- the keys of `gsubReaders` (gsub.go:52-66) other than 6_1, 6_2, 6_3 -/
-def otherKeys : List Nat := [11, 12, 21, 31, 41, 51, 52, 53, 71, 81]
+/-- the keys of `gsubReaders` (gsub.go:52-66) -/
+def readerKeys : List Nat := [11, 12, 21, 31, 41, 51, 52, 53, 61, 62, 63, 71, 81]
 
-/-- `readGsubSubtable(p, pos, &LookupMetaInfo{LookupType: 6})` -/
-def readChained (b : Bytes) (pos : Nat) : Outcome (Sub × Cost) := do
+/-- `readGsubSubtable(p, pos, &LookupMetaInfo{LookupType: 6})` (gsub.go:30-50).  `fixed = true` is
+the code as it is now (repair C02-dispatch-key, gsub.go:42:
+`if !ok || meta.LookupType > 9 || format > 9 { return invalid }`; the lookup type is 6 here);
+`fixed = false` the code before it, where the `uint16` key `10*6+format` of a format word such as
+11, 21 or 0xFFCF was the key of ANOTHER reader (7_1, 8_1, 1_1).  Those readers are not modelled
+in this group: `.err "other-reader"` stands for them; it is unreachable in the repaired code
+(`readChained_not_other`). -/
+def readChainedG (fixed : Bool) (b : Bytes) (pos : Nat) : Outcome (Sub × Cost) := do
   let format ← readU16 "gsub.go:36#ReadUint16" b pos
   let key := (60 + format) % 65536                      -- `10*meta.LookupType+format` in uint16
-  if key = 61 then read1 b pos
+  if ¬ readerKeys.contains key ∨ (fixed = true ∧ format > 9) then .err "invalid"
+  else if key = 61 then read1 b pos
   else if key = 62 then read2 b pos
   else if key = 63 then read3 b pos
-  else if otherKeys.contains key then .err "other-reader"
-  else .err "invalid"
+  else .err "other-reader"
+
+/-- the dispatcher as it is now -/
+def readChained (b : Bytes) (pos : Nat) : Outcome (Sub × Cost) := readChainedG true b pos
+
+/-- the dispatcher before the repair (kept only to state the finding) -/
+def readChainedOld (b : Bytes) (pos : Nat) : Outcome (Sub × Cost) := readChainedG false b pos
 
 end SfntV.Total.ChainCtx
